@@ -760,6 +760,36 @@ func (s *State) applyExtension(fn object.Extension, args []object.Object) object
 	return fn.Callback(s, fn.Name, args)
 }
 
+// cacheableResult tells if serving the same object again for another call is safe.
+func cacheableResult(o object.Object, depth int) bool {
+	o = object.Value(o)
+	switch o.Type() { //nolint:exhaustive // the rest holds no other object.
+	case object.FUNC:
+		return false
+	case object.ARRAY:
+		if object.Len(o) > object.MaxSmallArray || depth > 100 {
+			return false
+		}
+		for _, e := range object.Elements(o) {
+			if !cacheableResult(e, depth+1) {
+				return false
+			}
+		}
+	case object.MAP:
+		m := o.(object.Map)
+		if m.Len() > object.MaxSmallMap || depth > 100 {
+			return false
+		}
+		for _, k := range object.Elements(o) {
+			v, _ := m.Get(k)
+			if !cacheableResult(k, depth+1) || !cacheableResult(v, depth+1) {
+				return false
+			}
+		}
+	}
+	return true
+}
+
 func (s *State) applyFunction(name string, fn object.Object, args []object.Object) object.Object {
 	function, ok := fn.(object.Function)
 	if !ok {
@@ -816,7 +846,9 @@ func (s *State) applyFunction(name string, fn object.Object, args []object.Objec
 	}
 	// Don't cache function results: a returned closure captures this call's environment, serving it again
 	// would make separate calls share their captured variables.
-	if res.Type() == object.FUNC {
+	// Same for a function inside a returned array or map, and for arrays and maps in their large representation,
+	// which whoever holds them updates in place.
+	if !cacheableResult(res, 0) {
 		return res
 	}
 	// Don't cache errors, as it could be due to binding for instance.
